@@ -1,5 +1,5 @@
 CONSTANTS
- Oids = {"a","b"}
+ Oids = {"a","b","c"}
  MaxAdds = 4
  BatchSize = 2
  MaxRetries = 1
